@@ -833,10 +833,13 @@ class Harness:
             if not st.knows_closed:
                 await self.do_close(st, proto, op["code"])
         elif kind in ("stream", "streams"):
-            if proto.v_terminated or st.knows_closed:
-                # a stream opened on a dead connection is outside what the property promises
+            if st.knows_closed:
+                # a stream opened on a connection the application has seen terminate is outside what the property promises
                 self.probes["stream_skipped_connection_dead"] += 1
                 return
+            if proto.v_terminated:
+                # the application lost the race with the termination: whatever it reads must still end
+                self.probes["stream_opened_on_unnoticed_termination"] += 1
             specs = op["streams"]
             if len(specs) == 1:
                 await self.client_stream(st, proto, specs[0])
